@@ -1,6 +1,6 @@
 #!/bin/sh
 # usage: tools/verify_seed.sh <ID>   -- confirm a seeded change in /tmp/wt_<ID>: demo fails with it, passes without, suite unchanged
-ID="$1"; WT="/tmp/wt_$ID"; cd "$WT" || exit 2
+ID="$1"; WT="${SEED_WT:-/tmp/wt_$ID}"; cd "$WT" || exit 2
 run_demo() { JADE_REGISTRY="$WT/.reg.json" PYTHONPATH="$WT" timeout 300 /venv/bin/python "demo_$ID.py" > /tmp/demo_$ID.$1.log 2>&1; echo $?; }
 git checkout -q -- jade && git apply patch.diff || { echo "patch does not apply"; exit 2; }
 with=$(run_demo with)
